@@ -160,7 +160,13 @@ def pick_strategy(rng, n_tasks, thorough_targeted=None):
 class ConcRun(object):
 
     def __init__(self, world, seed, focus, knobs=None, setup_ops=None,
-                 batch=None, schedule=None, n_batch=None, strategy=None):
+                 batch=None, schedule=None, n_batch=None, strategy=None,
+                 n_schedules=1, enumerate_targeted=False):
+        self.n_schedules = n_schedules
+        self.enumerate_targeted = enumerate_targeted
+        self.serial_cache = {}
+        self.schedule_log = []   # per schedule: (strategy, schedule, sig,
+        #                          statuses, switches)
         self.world = world
         self.seed = seed
         self.focus = focus          # 'provider' | 'consumer' | 'mixed'
@@ -177,9 +183,11 @@ class ConcRun(object):
         self.stats['probes'][name] = self.stats['probes'].get(name, 0) + n
 
     def add(self, tags, rule, detail, kinds, sig_extra=''):
+        sim = getattr(self, 'sim', None)
         self.findings.append({
             'tags': sorted(tags), 'rule': rule, 'detail': detail,
-            'kind': '+'.join(sorted(kinds)), 'sig_extra': sig_extra})
+            'kind': '+'.join(sorted(kinds)), 'sig_extra': sig_extra,
+            'schedule': list(sim.schedule) if sim is not None else []})
 
     # ------------------------------------------------------------------
     def _req(self, sim, op):
@@ -352,8 +360,8 @@ class ConcRun(object):
         sim.prime_commit_log()
         self.state0 = sim._last_state
         if self.fixed_schedule is None:
-            self.strategy = self.strategy or pick_strategy(
-                self.rng, len(batch))
+            if self.strategy is None:
+                self.strategy = pick_strategy(self.rng, len(batch))
             sim.chooser = make_chooser(self.rng, self.strategy, len(batch))
         end_idx = {}
 
@@ -372,6 +380,10 @@ class ConcRun(object):
 
     def serial(self, batch, order):
         """Execute the given requests one after another from the snapshot."""
+        key = tuple(order)
+        hit = self.serial_cache.get(key)
+        if hit is not None:
+            return hit
         w = self.world
         w.restore(self.snap0)
         sim = seams.Sim(w, seed=1, trace_sql=False)
@@ -379,7 +391,9 @@ class ConcRun(object):
         for i in order:
             op = batch[i]
             out[i] = self._req(sim, op).status
-        return out, dump.natural(w)
+        res = (out, dump.natural(w))
+        self.serial_cache[key] = res
+        return res
 
     # ------------------------------------------------------------------
     def run(self):
@@ -406,6 +420,51 @@ class ConcRun(object):
         kinds = [op['kind'] for op in batch]
         self.snap0 = w.snapshot()
         nat0 = dump.natural(w)
+        if self.fixed_schedule is not None:
+            strategies = [None]
+        elif self.enumerate_targeted:
+            strategies = [('preempt', 0)]
+        else:
+            first = self.strategy
+            strategies = [first] + [None] * (self.n_schedules - 1)
+        seen_sigs = set()
+        n_done = 0
+        while strategies:
+            strat = strategies.pop(0)
+            if n_done:
+                w.restore(self.snap0)
+            self.strategy = strat
+            before = len(self.findings)
+            tasks = self.judge(batch, kinds, nat0)
+            n_done += 1
+            sig = (tuple(self.sim.sig), tuple(self.statuses))
+            self.schedule_log.append({
+                'strategy': list(self.strategy) if self.strategy else None,
+                'schedule': list(self.sim.schedule),
+                'sig': repr(sig), 'statuses': list(self.statuses),
+                'switches': self.switches,
+                'new': sig not in seen_sigs})
+            seen_sigs.add(sig)
+            if self.enumerate_targeted and n_done == 1:
+                # every single-pre-emption schedule: park a before its k-th
+                # transaction, run the others (both orders), resume a
+                n = len(batch)
+                for a in range(n):
+                    others = [i for i in range(n) if i != a]
+                    orders = [others] if len(others) < 2 else [
+                        others, list(reversed(others))]
+                    for k in range(0, tasks[a].ntxn + 1):
+                        for o in orders:
+                            strategies.append(('targeted', a, k, list(o)))
+                for _ in range(max(0, self.n_schedules)):
+                    strategies.append(('uniform',))
+            if len(self.findings) > before and self.fixed_schedule is None:
+                break   # report the first failing schedule of this batch
+        return self.findings
+
+    def judge(self, batch, kinds, nat0):
+        """Run the batch under one schedule and evaluate every oracle."""
+        w = self.world
         resps, tasks = self.run_concurrent(batch)
         natC = dump.natural(w)
         coreC = dump.natural_core(natC, generations=False)
@@ -467,7 +526,7 @@ class ConcRun(object):
         # ---- CAS specifications by commit order -------------------------------
         self.check_provider_cas(batch, kinds, resps, tasks)
         self.check_consumer_cas(batch, kinds, resps, tasks, natC)
-        return self.findings
+        return tasks
 
     # ------------------------------------------------------------------
     C07_KINDS = ('alloc_put', 'alloc_post', 'reshape', 'inv_put_all',
